@@ -308,6 +308,7 @@ def run_live(ctx, cfg, script=None, record=True):
     def tok(v):
         return "none" if v is None else str(2 ** 14 + 1 if v == "default" else v)
     model_rs = {}
+    model_limit = {}
     if lc is not None:
         # a client whose maxVersion is SSLv3 sends no extensions (tlsconnection.py: `extensions = None`)
         r = lc.ask("limits %d %s %s" % (int(cfg["ver"] >= (3, 4)), tok(cfg["rsl"][0]) if cfg["ver"] > (3, 0) else "none",
@@ -318,8 +319,10 @@ def run_live(ctx, cfg, script=None, record=True):
         ctx.compared()
         if ml != real:
             ctx.disagree("negotiateLimits", dict(cfg=jcfg(cfg)), ml, real)
+        model_limit = {"client": ml[0], "server": ml[2]}
         model_rs = {"client": min(users["client"] if users["client"] is not None else 16384, ml[0]),
                     "server": min(users["server"] if users["server"] is not None else 16384, ml[2])}
+    model_rs0 = dict(model_rs)
     mcfg = {w: R.model_cfg(conns[w]) for w in conns}
     split = {w: (cfg["ver"] <= (3, 1) and mcfg[w][0]["cipher"] == "block") for w in conns}
 
@@ -328,11 +331,27 @@ def run_live(ctx, cfg, script=None, record=True):
     ops = []              # executed script
     fifo_ops, fifo_exp = [], []
     failed = [False]
+    rec_limits = {"client": [], "server": []}     # limit in force when each application record was cut
+    negotiated = {w: R.limit_in_force(cfg, w, None) for w in ("client", "server")}
 
     def viol(key, what, extra=None):
         failed[0] = True
         rep = dict(stage="live", cfg=jcfg(cfg), script=ops, detail=extra)
         ctx.violation(key, what + " [" + label + "]", rep)
+
+    wl_cache = {}
+
+    def wirelens(who, frag_lens):
+        """model wire length of each fragment (persistent driver process, cached per connection)"""
+        c, p = mcfg[who]
+        out = []
+        for f in frag_lens:
+            key = (who, f)
+            if key not in wl_cache:
+                wl_cache[key] = lc.ask("wirelen %s %s %s %d 23 %s" % (T.cfg_tokens(c), T.prims_tokens(p), pads[who],
+                                                                     conns[who]._send_record_limit, f))
+            out.append(wl_cache[key])
+        return out
 
     def do_write(who, data):
         k0 = len(L.link.wire_log[txdir[who]])
@@ -347,6 +366,7 @@ def run_live(ctx, cfg, script=None, record=True):
         recs = parse_records(b"".join(L.link.wire_log[txdir[who]][k0:]))
         seen = [(t, v, len(b)) for (t, v, b) in recs]
         fifo_exp.append(("w", [len(b) for (_, _, b) in recs]))
+        rec_limits[who] += [limits[who]] * len(seen)
         # direct oracle on TLS 1.3 wire lengths: inner plaintext (fragment + type + padding) within
         # what the peer advertised (RFC 8449), default 2^14 + 1
         if cfg["ver"] >= (3, 4):
@@ -361,10 +381,7 @@ def run_live(ctx, cfg, script=None, record=True):
             if fr == "none":
                 exp = None
             else:
-                c, p = mcfg[who]
-                lines = ["wirelen %s %s %s %d 23 %s" % (T.cfg_tokens(c), T.prims_tokens(p), pads[who],
-                                                       conns[who]._send_record_limit, f) for f in fr.split(",")]
-                wl = lc.batch(lines)
+                wl = wirelens(who, fr.split(","))
                 hv = (3, 3) if cfg["ver"] >= (3, 4) else cfg["ver"]
                 exp = [(23, hv, int(x)) if x != "none" else None for x in wl]
             ctx.compared()
@@ -373,6 +390,95 @@ def run_live(ctx, cfg, script=None, record=True):
         ctx.case(key=("live-w", label, who, len(data)),
                  sample=dict(stream="live", cfg=label, who=who, n=len(data), records=[(t, ln) for (t, v, ln) in seen][:6])
                  if ctx.evaluations % 97 == 0 else None)
+
+    def set_size(who, n):
+        """the application assigns conn.recordSize between operations"""
+        conns[who].recordSize = n
+        users[who] = n
+        limits[who] = min(n, negotiated[who])
+        if who in model_rs:
+            model_rs[who] = min(n, model_limit[who])
+        ops.append(("s", who, n))
+        fifo_ops.append("s%s:%d" % ("A" if who == "client" else "B", n))
+        fifo_exp.append(("s", None))
+
+    def complete_records(data):
+        n, i = 0, 0
+        while i + 5 <= len(data):
+            ln = (data[i + 3] << 8) | data[i + 4]
+            if i + 5 + ln > len(data):
+                break
+            n += 1
+            i += 5 + ln
+        return n
+
+    def do_write_suspended(who, data, sched, changes):
+        """writeAsync on a non-blocking transport (would-block / partial accepts per `sched`); every time
+        the generator is suspended the application assigns the next value of `changes` to conn.recordSize"""
+        end = L.end(who)
+        conn = conns[who]
+        k0 = len(L.link.wire_log[txdir[who]])
+        ops.append(("ws", who, len(data), bytes(data).hex() if len(data) <= 64 else None, list(sched), list(changes)))
+        end.sock.send_schedule = iter(list(sched))
+        uvals = []                                  # user recordSize in force when record i was cut
+        cur = users[who] if users[who] is not None else 16384
+        pending = list(changes)
+        end.start(conn.writeAsync(data))
+        steps = 0
+        while end.state == "running" and steps < 400000:
+            ny = len(end.yields)
+            alive = end.step()
+            steps += 1
+            if alive and len(end.yields) > ny and end.yields[-1] == 1 and pending:
+                done = complete_records(b"".join(L.link.wire_log[txdir[who]][k0:]))
+                while len(uvals) < done + 1:        # records 0..done are cut already
+                    uvals.append(cur)
+                cur = pending.pop(0)
+                conn.recordSize = cur
+        end.sock.send_schedule = None
+        users[who] = cur
+        limits[who] = min(cur, negotiated[who])
+        if who in model_rs:
+            model_rs[who] = min(cur, model_limit[who])
+        letter = "A" if who == "client" else "B"
+        if end.state != "done":
+            fifo_ops.append("w%s:%s" % (letter, hx(data)))
+            fifo_ops.append("s%s:%d" % (letter, cur))
+            fifo_exp.extend([("w?", None), ("s", None)])
+            viol("c01:write-failed", "suspended write of %d bytes did not complete: %s %s"
+                 % (len(data), end.state, R.lab.exc_class(end.exc) if end.exc else ""))
+            return
+        written[who] += data
+        recs = parse_records(b"".join(L.link.wire_log[txdir[who]][k0:]))
+        seen = [(t, v, len(b)) for (t, v, b) in recs]
+        while len(uvals) < len(seen):
+            uvals.append(cur)
+        lim_m = model_limit.get(who, negotiated[who])
+        fifo_ops.append("v%s:%s:%s" % (letter, hx(data), ",".join(str(min(u, lim_m)) for u in uvals)))
+        fifo_ops.append("s%s:%d" % (letter, cur))
+        fifo_exp.extend([("w", [len(b) for (_, _, b) in recs]), ("s", None)])
+        rec_limits[who] += [min(u, negotiated[who]) for u in uvals[:len(seen)]]
+        if cfg["ver"] >= (3, 4):
+            adv = R.advertised(cfg, peer[who]) or 2 ** 14 + 1
+            for (t, v, ln) in seen:
+                if t == 23 and ln - tag > adv:
+                    viol("c01:record-exceeds-limit", "TLS 1.3 record with %d bytes of inner plaintext, peer advertised "
+                         "record_size_limit %d" % (ln - tag, adv), dict(write=len(data), records=seen))
+        if lc is not None and who in model_rs:
+            msz = [min(u, model_limit[who]) for u in uvals] or [min(cur, model_limit[who])]
+            fr = lc.ask("fragvar %d %d %s" % (int(split[who]), len(data), ",".join(str(x) for x in msz)))
+            if fr == "none":
+                exp = None
+            else:
+                wl = wirelens(who, fr.split(","))
+                hv = (3, 3) if cfg["ver"] >= (3, 4) else cfg["ver"]
+                exp = [(23, hv, int(x)) if x != "none" else None for x in wl]
+            ctx.compared()
+            if exp != seen:
+                ctx.disagree("live-wire-lengths-varying-size", dict(cfg=jcfg(cfg), who=who, n=len(data), sizes=msz[:20], frags=fr),
+                             exp, seen)
+        ctx.case(key=("live-ws", label, who, len(data), tuple(changes)), sample=None)
+        ctx.count("live:suspended-writes")
 
     def do_read(who, mx, mn):
         res = L.read(who, max=mx, min=mn)
@@ -439,11 +545,46 @@ def run_live(ctx, cfg, script=None, record=True):
                     do_read(who, rng.choice([None, 3, 1000]), rng.choice([0, 1, 2]))
             for who in order:
                 drain(who)
+        # the application changes recordSize: between writes, and while a write is suspended on a would-block
+        slow = cfg["cipher"] in R.SLOW
+        rnd0 = rng.randrange(2)
+        for rnd in range(rnd0, rnd0 + (1 if not ctx.thorough() else 4)):
+            for who in ("client", "server"):
+                if failed[0]:
+                    break
+                base = rng.choice([64, 100, 600, 16384] if not slow else [64, 100])
+                set_size(who, base)
+                eff = limits[who]
+                n = min(rng.choice([2 * eff + 7, 10 * eff, 1000, 1500, 3 * eff]), 400 if slow else 2500)
+                do_write(who, rb(rng, n))
+                # raise on odd rounds, lower on even ones, then mixed
+                raise_first = ((rnd + (who == "server")) % 2 == 0)
+                pool_up = [eff * 4 + 3, 16384, 20000, 600 if eff < 600 else 16384]
+                pool_down = [max(1, eff // 3), 7, 64 if eff > 64 else 5, 33]
+                changes = [rng.choice(pool_up if raise_first else pool_down)]
+                if rng.random() < 0.6:
+                    changes.append(rng.choice(pool_down if raise_first else pool_up))
+                if rng.random() < 0.3:
+                    changes.append(rng.choice(pool_up + pool_down))
+                small = min([eff] + changes)
+                n = min(rng.choice([1000, 1500, 2 * eff + 1, 12 * eff]), 25 * small + 50, 400 if slow else 2500)
+                nrec = n // max(1, small) + 3
+                sched = [rng.choice(["wb", rng.randrange(1, 60), 10 ** 6, 10 ** 6]) for _ in range(min(2 * nrec + 6, 120))]
+                sched[0] = "wb"
+                do_write_suspended(who, rb(rng, n), sched, changes)
+                drain(peer[who])
+            for who in ("client", "server"):
+                drain(who)
     else:
         for op in script:
             if op[0] == "w":
                 data = bytes.fromhex(op[3]) if op[3] is not None else rb(rng, op[2])
                 do_write(op[1], data)
+            elif op[0] == "s":
+                set_size(op[1], op[2])
+            elif op[0] == "ws":
+                data = bytes.fromhex(op[3]) if op[3] is not None else rb(rng, op[2])
+                do_write_suspended(op[1], data, op[4], op[5])
             else:
                 do_read(op[1], op[2], op[3])
 
@@ -453,24 +594,28 @@ def run_live(ctx, cfg, script=None, record=True):
             src = peer[who]
             if script is None and bytes(got[who]) != bytes(written[src]):
                 viol("c01:data-mismatch", "%s read %d bytes, %s wrote %d" % (who, len(got[who]), src, len(written[src])))
-            lim = limits[src]
-            for (t, n) in recv_log[who]:
-                if t == 23 and n > lim:
-                    viol("c01:record-exceeds-limit", "a record sent by %s carried %d plaintext bytes; limit in force %d "
-                         "(recordSize %r, peer advertised %r)" % (src, n, lim, users[src], R.advertised(cfg, who)))
+            app = [n for (t, n) in recv_log[who] if t == 23]
+            for i, n in enumerate(app):
+                lim = rec_limits[src][i] if i < len(rec_limits[src]) else limits[src]
+                if n > lim:
+                    viol("c01:record-exceeds-limit", "record %d sent by %s carried %d plaintext bytes; limit in force when "
+                         "it was cut: %d (peer advertised %r)" % (i, src, n, lim, R.advertised(cfg, who)))
                     break
             if conns[who].closed:
                 viol("c01:closed", "%s closed during an honest exchange" % who)
     # --- FIFO model over the whole script
     if lc is not None and model_rs and not failed[0]:
-        line = "fifo %d %d %d %d %s" % (int(split["client"]), model_rs["client"], int(split["server"]), model_rs["server"],
-                                       " ".join(fifo_ops))
+        line = "fifo %d %d/%d %d %d/%d %s" % (int(split["client"]), model_rs0["client"], model_limit["client"],
+                                             int(split["server"]), model_rs0["server"], model_limit["server"],
+                                             " ".join(fifo_ops))
         out = lc.ask(line).split() if fifo_ops else []
         ctx.compared(len(fifo_ops))
         if len(out) != len(fifo_exp):
             ctx.disagree("fifo-model", dict(cfg=jcfg(cfg), n=len(fifo_ops)), out[:5], "reply count %d" % len(fifo_exp))
         else:
             for i, (o, e) in enumerate(zip(out, fifo_exp)):
+                if e[0] == "w?":
+                    continue        # written while recordSize was changing: fragment count checked by fragvar
                 if e[0] == "w":
                     # the model lists the plaintext fragments; on the wire only their number is visible
                     o = "w%d" % (len(o[1:].split(",")) if o.startswith("w") and len(o) > 1 else -1)
